@@ -61,6 +61,7 @@ type Contract struct {
 	Asserts  []*Clause
 	Assigns  []string
 	HasAssigns bool
+	LineHooks []*Clause // assertions / ghost assignments executed when control reaches a source line
 	GhostVars []*GhostVar
 	Sets      []*Clause // ghost assignments executed after a call: Clause.At callee, Label = variable
 	MayFail  []string // source-line substrings: an implicit panic there is a path (recovered by a deferred call), not an obligation
@@ -170,12 +171,25 @@ func readContractLines(file string) ([]rawLine, error) {
 var aliasRe = regexp.MustCompile(`([A-Za-z_][A-Za-z0-9_]*)\.`)
 
 func (cs *ContractSet) expand(s string) string {
-	return aliasRe.ReplaceAllStringFunc(s, func(m string) string {
-		if p, ok := cs.Aliases[m[:len(m)-1]]; ok {
-			return p + "."
+	var sb strings.Builder
+	last := 0
+	for _, loc := range aliasRe.FindAllStringIndex(s, -1) {
+		m := s[loc[0]:loc[1]]
+		sb.WriteString(s[last:loc[0]])
+		last = loc[1]
+		// an identifier that is the tail of a path (preceded by '/') is not an alias use
+		if loc[0] > 0 && (s[loc[0]-1] == '/' || s[loc[0]-1] == '.') {
+			sb.WriteString(m)
+			continue
 		}
-		return m
-	})
+		if p, ok := cs.Aliases[m[:len(m)-1]]; ok {
+			sb.WriteString(p + ".")
+		} else {
+			sb.WriteString(m)
+		}
+	}
+	sb.WriteString(s[last:])
+	return sb.String()
 }
 
 func (cs *ContractSet) loadFile(file string, pkgPrefix string) error {
@@ -332,6 +346,28 @@ func (cs *ContractSet) loadFile(file string, pkgPrefix string) error {
 				cl.Loop, _ = strconv.Atoi(m[1])
 				cur.Invs = append(cur.Invs, cl)
 			case "at":
+				if lm := regexp.MustCompile(`^line\s+"([^"]*)"\s+(assert|set)\b(.*)$`).FindStringSubmatch(rest); lm != nil {
+					if lm[2] == "assert" {
+						cl, err := cs.parseClause("assert", strings.TrimSpace(lm[3]), l)
+						if err != nil {
+							return err
+						}
+						cl.AtLine = lm[1]
+						cl.At = "@line"
+						cur.LineHooks = append(cur.LineHooks, cl)
+					} else {
+						sm := regexp.MustCompile(`^\s*(\w+)\s*=\s*(.*)$`).FindStringSubmatch(lm[3])
+						if sm == nil {
+							return fail("at line \"text\" set name = expr")
+						}
+						e, err := cs.parseExpr(sm[2])
+						if err != nil {
+							return fail("%v", err)
+						}
+						cur.LineHooks = append(cur.LineHooks, &Clause{Kind: "set", At: "@line", AtLine: lm[1], Label: sm[1], Expr: e, Src: sm[2], File: l.file, Line: l.line})
+					}
+					break
+				}
 				m := regexp.MustCompile(`^(\S+)(?:\s+#(\d+))?(?:\s+line\s+"([^"]*)")?\s+assert\b(.*)$`).FindStringSubmatch(rest)
 				if m == nil {
 					return fail("at <callee> [#n] [line \"text\"] assert expr")
@@ -348,7 +384,7 @@ func (cs *ContractSet) loadFile(file string, pkgPrefix string) error {
 				cur.Asserts = append(cur.Asserts, cl)
 			case "assigns":
 				cur.HasAssigns = true
-				for _, a := range strings.Split(rest, ",") {
+				for _, a := range splitTop(rest, ",") {
 					a = strings.TrimSpace(a)
 					if a != "" && a != "nothing" {
 						cur.Assigns = append(cur.Assigns, a)
@@ -362,9 +398,9 @@ func (cs *ContractSet) loadFile(file string, pkgPrefix string) error {
 				cur.Recovers = true
 			case "ghostvar":
 				// ghostvar name int = expr
-				m := regexp.MustCompile(`^(\w+)\s+(int|bool)\s*=\s*(.*)$`).FindStringSubmatch(rest)
+				m := regexp.MustCompile(`^(\w+)\s+(int|bool|seqint|seqbool)\s*=\s*(.*)$`).FindStringSubmatch(rest)
 				if m == nil {
-					return fail("ghostvar name int|bool = expr")
+					return fail("ghostvar name int|bool|seqint|seqbool = expr")
 				}
 				e, err := cs.parseExpr(m[3])
 				if err != nil {
@@ -525,6 +561,7 @@ func splitTop(s, sep string) []string {
 }
 
 var quantRe = regexp.MustCompile(`^(forall|exists)\s+(\w+)\s+in\s+`)
+var quantAllRe = regexp.MustCompile(`^(forall|exists)\s+(\w+)\s*::`)
 
 func rewriteExpr(s string) string {
 	s = strings.TrimSpace(s)
@@ -540,6 +577,10 @@ func rewriteExpr(s string) string {
 				return fmt.Sprintf("%s(%s, %s, %s, %s)", m[1], m[2], rewriteExpr(lohi[0]), rewriteExpr(lohi[1]), rewriteExpr(body))
 			}
 		}
+	}
+	if m := quantAllRe.FindStringSubmatch(s); m != nil {
+		// unbounded quantifier: forall k :: P
+		return fmt.Sprintf("%s(%s, ALL, ALL, %s)", m[1], m[2], rewriteExpr(s[len(m[0]):]))
 	}
 	if ps := splitTop(s, "<==>"); len(ps) == 2 {
 		return fmt.Sprintf("iff(%s, %s)", rewriteExpr(ps[0]), rewriteExpr(ps[1]))
